@@ -20,6 +20,7 @@ SUBMISSIONS = {
     "keyerr": "d = {'a': 1}\nprint(d['b'])\n",
     "syntax": "def f(:\n  pass\n",
     "indent": "x = 1\n    y = 2\nprint(x)\n",
+    "uses_len": "def f(x):\n    return x + x\nprint(len([1, 2, 3]))\n",
     "unused": "x = 0\ny = 5\nprint('hi')\n",
     "empty": "",
     "input": "n = input('n?')\nprint(int(n) + 1)\n",
@@ -73,6 +74,10 @@ FRAGMENTS = [
     ("clear_data", "clear_student_data()\nrun()\n"),
     # mocking / allowing / blocking
     ("mock_fn", "mock_function('len', lambda x: 99)\nrun()\nprint(repr(student.output))\n"),
+    # an execution NESTED in an execution: the instructor's replacement for a builtin calls back into the student's
+    # code while the student's program is still running (both push and pop the sandbox's patch / stdout stacks)
+    ("nested_exec", "def _verif_lookup(*args):\n    return student.call('f', 2)\nmock_function('len', _verif_lookup)\nrun()\nprint(repr(student.output))\n"),
+    ("nested_input", "def _verif_answer(prompt=''):\n    student.evaluate('1 + 1')\n    return '7'\nset_input(_verif_answer)\nrun()\n"),
     ("block_print", "block_function('print')\nrun()\n"),
     ("allow_open", "allow_function('open')\nrun()\n"),
     ("block_math", "block_module('math')\nrun()\n"),
@@ -230,6 +235,8 @@ CORPUS = [
     ("class-hook-then-feedback", [G(["class_hook", "gently"], "ok"), G(["gently"], "ok")]),
     ("resolved-then-plain", [G(["gently", "resolve_early"], "ok"), G(["explain"], "ok")]),
     ("mock-then-run", [G(["mock_fn"], "builtin_name"), G(["student_out"], "builtin_name")]),
+    ("nested-execution-then-plain", [G(["nested_exec"], "uses_len"), G(["student_out"], "printer"), G(["gently"], "ok")]),
+    ("nested-input-then-plain", [G(["nested_input"], "input"), G(["student_out"], "sleep"), G(["nothing"], "imports")]),
     ("block-then-run", [G(["block_print", "block_math"], "imports"), G(["student_out"], "imports")]),
     ("sections-unfinished", [G(["sections_nostop"], "sections"), G(["gently"], "ok"), G(["sections"], "sections")]),
     ("sections-crash", [G(["sections_nostop", "crash_value"], "sections"), G(["student_out"], "printer")]),
